@@ -425,5 +425,19 @@ def run(project: Project, rep, tier: str):
     check_snap(project, rep)
     check_index(project, rep)
     check_dv_inf(project, rep)
-    for rn, n in (("GL-FWD", 3), ("GL-GRID", 7), ("GL-SNAP", 3), ("GL-INDEX", 2), ("GL-DV", 2), ("GL-INF", 3)):
+    # GL-DEFAULT: a grid bound that is `None` when not given must not be defaulted by a truth test — start = 0 / stop = 0 are
+    # legitimate requests and would silently be replaced by the data's own bounds
+    from .common import none_vs_truthiness
+    bad, n_keys = none_vs_truthiness(project, "persim.landscapes.")
+    for (owner, name), none_sites, truthy_sites in bad:
+        fi_, node_ = truthy_sites[0]
+        rep.refuted("GL-DEFAULT", fi_, node_,
+                    f"`{name}` is compared with None at {none_sites[0][0].loc(none_sites[0][1])} (None = not given) but "
+                    f"truth-tested here (`{ast.unparse(node_)}`): an explicitly requested value 0 is treated as not given and "
+                    f"replaced by the default, so the values are sampled on a different grid than the one requested",
+                    construct=f"{owner}: truth test of {name}")
+    if not bad:
+        rep.discharged("GL-DEFAULT", None, None, f"{n_keys} parameters/attributes of the landscape modules use None as the "
+                                                 f"'not given' marker; none of them is also truth-tested")
+    for rn, n in (("GL-FWD", 3), ("GL-GRID", 7), ("GL-SNAP", 3), ("GL-INDEX", 2), ("GL-DV", 2), ("GL-INF", 3), ("GL-DEFAULT", 1)):
         rep.floor(rn, n)
